@@ -34,14 +34,14 @@ use vh::{Case, Run};
 // ---------------------------------------------------------------------------------------------
 
 #[derive(Debug, Clone, Copy, PartialEq, Eq, PartialOrd, Ord, Serialize, Deserialize)]
-enum Mode {
+pub enum Mode {
     Pase,
     Case,
     Group,
 }
 
 #[derive(Debug, Clone, Copy, PartialEq, Eq, PartialOrd, Ord, Serialize, Deserialize)]
-enum Priv {
+pub enum Priv {
     View,
     ProxyView,
     Operate,
@@ -49,7 +49,7 @@ enum Priv {
     Administer,
 }
 
-const ALL_PRIVS: [Priv; 5] = [
+pub const ALL_PRIVS: [Priv; 5] = [
     Priv::View,
     Priv::ProxyView,
     Priv::Operate,
@@ -58,7 +58,7 @@ const ALL_PRIVS: [Priv; 5] = [
 ];
 
 #[derive(Debug, Clone, Copy, PartialEq, Eq, Serialize, Deserialize)]
-enum Subj {
+pub enum Subj {
     /// A node id (CASE), group id (Group) or passcode id (PASE)
     Id(u64),
     /// A CASE authenticated tag: 16-bit identifier + 16-bit version
@@ -66,105 +66,105 @@ enum Subj {
 }
 
 #[derive(Debug, Clone, Copy, PartialEq, Eq, Serialize, Deserialize)]
-struct Tgt {
-    endpoint: Option<u16>,
-    cluster: Option<u32>,
-    device_type: Option<u32>,
+pub struct Tgt {
+    pub endpoint: Option<u16>,
+    pub cluster: Option<u32>,
+    pub device_type: Option<u32>,
 }
 
 /// `None` = null list, `Some(vec![])` = empty (non-null) list.
-type List<T> = Option<Vec<T>>;
+pub type List<T> = Option<Vec<T>>;
 
 #[derive(Debug, Clone, PartialEq, Eq, Serialize, Deserialize)]
-struct Entry {
-    privilege: Priv,
-    mode: Mode,
-    subjects: List<Subj>,
-    targets: List<Tgt>,
+pub struct Entry {
+    pub privilege: Priv,
+    pub mode: Mode,
+    pub subjects: List<Subj>,
+    pub targets: List<Tgt>,
 }
 
 #[derive(Debug, Clone, PartialEq, Eq, Serialize, Deserialize)]
-struct GroupSpec {
-    id: u16,
-    endpoints: Vec<u16>,
+pub struct GroupSpec {
+    pub id: u16,
+    pub endpoints: Vec<u16>,
     /// has auxiliary ACL (only meaningful with the auxiliary feature on)
-    aux: bool,
+    pub aux: bool,
 }
 
 #[derive(Debug, Clone, PartialEq, Eq, Serialize, Deserialize)]
-struct FabricSpec {
-    present: bool,
-    entries: Vec<Entry>,
+pub struct FabricSpec {
+    pub present: bool,
+    pub entries: Vec<Entry>,
     /// distinct group ids by construction
-    groups: Vec<GroupSpec>,
+    pub groups: Vec<GroupSpec>,
 }
 
 /// `fabrics[i]` describes fabric index `i + 1`.
 #[derive(Debug, Clone, PartialEq, Eq, Serialize, Deserialize)]
-struct World {
-    fabrics: Vec<FabricSpec>,
+pub struct World {
+    pub fabrics: Vec<FabricSpec>,
 }
 
 #[derive(Debug, Clone, PartialEq, Eq, Serialize, Deserialize)]
-struct Acc {
+pub struct Acc {
     /// `None` = unauthenticated (plain-text) session
-    mode: Option<Mode>,
-    fab: u8,
+    pub mode: Option<Mode>,
+    pub fab: u8,
     /// node id / group id / passcode id
-    id: u64,
-    cats: Vec<(u16, u16)>,
+    pub id: u64,
+    pub cats: Vec<(u16, u16)>,
 }
 
 #[derive(Debug, Clone, PartialEq, Eq, Serialize, Deserialize)]
-struct Req {
-    endpoint: u16,
-    cluster: u32,
-    leaf: u32,
+pub struct Req {
+    pub endpoint: u16,
+    pub cluster: u32,
+    pub leaf: u32,
     /// device types of the endpoint hosting the path
-    device_types: Vec<u16>,
+    pub device_types: Vec<u16>,
     /// false = read, true = write / invoke
-    write: bool,
+    pub write: bool,
     /// raw bits of the element's `Access` declaration (9 bits)
-    access: u16,
+    pub access: u16,
 }
 
 #[derive(Debug, Clone, Serialize, Deserialize)]
-struct DecisionCase {
-    world: World,
-    acc: Acc,
-    req: Req,
+pub struct DecisionCase {
+    pub world: World,
+    pub acc: Acc,
+    pub req: Req,
 }
 
 #[derive(Debug, Clone, Serialize, Deserialize)]
-struct EntryCase {
-    entry: Entry,
+pub struct EntryCase {
+    pub entry: Entry,
     /// fabric index stored in the entry (`0` = none)
-    entry_fab: u8,
-    acc: Acc,
-    req: Req,
+    pub entry_fab: u8,
+    pub acc: Acc,
+    pub req: Req,
 }
 
 #[derive(Debug, Clone, Serialize, Deserialize)]
-struct RelCase {
-    world: World,
-    acc: Acc,
-    req: Req,
-    aux: bool,
+pub struct RelCase {
+    pub world: World,
+    pub acc: Acc,
+    pub req: Req,
+    pub aux: bool,
 }
 
 #[derive(Debug, Clone, Serialize, Deserialize)]
-struct GroupCase {
-    world: World,
-    acc: Acc,
-    endpoint: u16,
-    aux: bool,
+pub struct GroupCase {
+    pub world: World,
+    pub acc: Acc,
+    pub endpoint: u16,
+    pub aux: bool,
 }
 
 #[derive(Debug, Clone, Serialize, Deserialize)]
-struct TableItem {
-    privilege: Priv,
-    access: u16,
-    write: bool,
+pub struct TableItem {
+    pub privilege: Priv,
+    pub access: u16,
+    pub write: bool,
 }
 
 // ---------------------------------------------------------------------------------------------
@@ -176,7 +176,7 @@ struct TableItem {
 /// implicitly grants View privileges"; the spec's granting algorithm adds ProxyView to what
 /// Administer subsumes). `proxy_grants_view` selects between the spec reading and rs-matter's
 /// documented "ProxyView grants nothing for non-proxy operations" reading; see [`combine`].
-fn subsumed(p: Priv, proxy_grants_view: bool) -> &'static [Priv] {
+pub fn subsumed(p: Priv, proxy_grants_view: bool) -> &'static [Priv] {
     match p {
         Priv::View => &[Priv::View],
         Priv::ProxyView => {
@@ -200,7 +200,7 @@ fn subsumed(p: Priv, proxy_grants_view: bool) -> &'static [Priv] {
 
 /// What the element's access declaration requires for one operation.
 #[derive(Debug, Clone, Copy, PartialEq, Eq)]
-enum Need {
+pub enum Need {
     /// The declaration does not list the operation at all: nothing can be granted.
     Unsupported,
     /// The declaration names no privilege applicable to the operation: nothing can be granted
@@ -220,7 +220,7 @@ enum Need {
 /// is a read-only privilege: it is never a requirement for write / invoke). This is the encoding
 /// documented by the constants (`RWVA` = read:View write:Administer, `WO` = O|M|A = Operate,
 /// `RWVM`) and by the code generator.
-fn need(decl: Access, write: bool) -> Need {
+pub fn need(decl: Access, write: bool) -> Need {
     let op = if write { Access::WRITE } else { Access::READ };
     if !decl.contains(op) {
         return Need::Unsupported;
@@ -253,20 +253,20 @@ fn need(decl: Access, write: bool) -> Need {
     Need::Level(lo)
 }
 
-fn cat_value(id: u16, ver: u16) -> u64 {
+pub fn cat_value(id: u16, ver: u16) -> u64 {
     // Matter Core spec: a CASE Authenticated Tag as subject is the node id
     // 0xFFFF_FFFD_xxxx_yyyy with xxxx = identifier and yyyy = version.
     0xFFFF_FFFD_0000_0000u64 | ((id as u64) << 16) | ver as u64
 }
 
-fn subj_value(s: &Subj) -> u64 {
+pub fn subj_value(s: &Subj) -> u64 {
     match s {
         Subj::Id(v) => *v,
         Subj::Cat { id, ver } => cat_value(*id, *ver),
     }
 }
 
-fn ref_subject_match(e: &Entry, acc: &Acc) -> bool {
+pub fn ref_subject_match(e: &Entry, acc: &Acc) -> bool {
     match &e.subjects {
         None => true,
         Some(list) if list.is_empty() => true,
@@ -280,7 +280,7 @@ fn ref_subject_match(e: &Entry, acc: &Acc) -> bool {
     }
 }
 
-fn ref_target_match(e: &Entry, req: &Req) -> bool {
+pub fn ref_target_match(e: &Entry, req: &Req) -> bool {
     match &e.targets {
         None => true,
         Some(list) if list.is_empty() => true,
@@ -303,13 +303,13 @@ fn ref_target_match(e: &Entry, req: &Req) -> bool {
 }
 
 #[derive(Debug, Clone, Copy, PartialEq, Eq)]
-enum Expect {
+pub enum Expect {
     Allow,
     Deny,
     Either,
 }
 
-fn decide_with_granted(granted: &BTreeSet<Priv>, need: Need) -> Expect {
+pub fn decide_with_granted(granted: &BTreeSet<Priv>, need: Need) -> Expect {
     match need {
         Need::Unsupported | Need::NoneDeclared => Expect::Deny,
         Need::Level(r) => {
@@ -331,20 +331,20 @@ fn decide_with_granted(granted: &BTreeSet<Priv>, need: Need) -> Expect {
     }
 }
 
-fn priv_ok(p: Priv, need: Need, proxy_grants_view: bool) -> Expect {
+pub fn priv_ok(p: Priv, need: Need, proxy_grants_view: bool) -> Expect {
     let g: BTreeSet<Priv> = subsumed(p, proxy_grants_view).iter().copied().collect();
     decide_with_granted(&g, need)
 }
 
 /// Per-entry dimensions of the match (for the near-miss statistic).
-struct Dims {
-    mode: bool,
-    subject: bool,
-    target: bool,
-    privilege: bool,
+pub struct Dims {
+    pub mode: bool,
+    pub subject: bool,
+    pub target: bool,
+    pub privilege: bool,
 }
 
-fn dims(e: &Entry, acc: &Acc, req: &Req, nd: Need) -> Dims {
+pub fn dims(e: &Entry, acc: &Acc, req: &Req, nd: Need) -> Dims {
     Dims {
         mode: Some(e.mode) == acc.mode,
         subject: ref_subject_match(e, acc),
@@ -354,7 +354,7 @@ fn dims(e: &Entry, acc: &Acc, req: &Req, nd: Need) -> Dims {
 }
 
 /// The reference decision for a whole node.
-fn ref_decide(world: &World, acc: &Acc, req: &Req, proxy_grants_view: bool) -> Expect {
+pub fn ref_decide(world: &World, acc: &Acc, req: &Req, proxy_grants_view: bool) -> Expect {
     // Implicit administer grant of a passcode-authenticated commissioner.
     if acc.mode == Some(Mode::Pase) {
         return Expect::Allow;
@@ -387,7 +387,7 @@ fn ref_decide(world: &World, acc: &Acc, req: &Req, proxy_grants_view: bool) -> E
 }
 
 /// The reference decision for a single stand-alone entry (`entry_fab` 0 = entry without fabric).
-fn ref_entry(e: &Entry, entry_fab: u8, acc: &Acc, req: &Req, proxy_grants_view: bool) -> Expect {
+pub fn ref_entry(e: &Entry, entry_fab: u8, acc: &Acc, req: &Req, proxy_grants_view: bool) -> Expect {
     if entry_fab == 0 || entry_fab != acc.fab {
         return Expect::Deny;
     }
@@ -417,11 +417,11 @@ thread_local! {
     )));
 }
 
-fn matter() -> &'static Matter<'static> {
+pub fn matter() -> &'static Matter<'static> {
     MATTER.with(|m| *m)
 }
 
-fn sut_privilege(p: Priv) -> Privilege {
+pub fn sut_privilege(p: Priv) -> Privilege {
     match p {
         Priv::View => Privilege::VIEW,
         Priv::ProxyView => Privilege::PROXYVIEW,
@@ -431,7 +431,7 @@ fn sut_privilege(p: Priv) -> Privilege {
     }
 }
 
-fn sut_mode(m: Mode) -> AuthMode {
+pub fn sut_mode(m: Mode) -> AuthMode {
     match m {
         Mode::Pase => AuthMode::Pase,
         Mode::Case => AuthMode::Case,
@@ -441,7 +441,7 @@ fn sut_mode(m: Mode) -> AuthMode {
 
 /// AccessControlEntryStruct as Matter TLV (Privilege=1, AuthMode=2, Subjects=3, Targets=4;
 /// AccessControlTargetStruct Cluster=0, Endpoint=1, DeviceType=2), hand-encoded.
-fn entry_tlv(e: &Entry) -> Vec<u8> {
+pub fn entry_tlv(e: &Entry) -> Vec<u8> {
     let mut b = vec![0x15u8];
     let p = match e.privilege {
         Priv::View => 1u8,
@@ -494,12 +494,12 @@ fn entry_tlv(e: &Entry) -> Vec<u8> {
     b
 }
 
-fn has_empty_list(e: &Entry) -> bool {
+pub fn has_empty_list(e: &Entry) -> bool {
     e.subjects.as_ref().is_some_and(|l| l.is_empty())
         || e.targets.as_ref().is_some_and(|l| l.is_empty())
 }
 
-fn sut_entry_api(e: &Entry, fab: Option<NonZeroU8>) -> Result<AclEntry, String> {
+pub fn sut_entry_api(e: &Entry, fab: Option<NonZeroU8>) -> Result<AclEntry, String> {
     let mut out = AclEntry::new(fab, sut_privilege(e.privilege), sut_mode(e.mode));
     if let Some(list) = &e.subjects {
         for s in list {
@@ -516,7 +516,7 @@ fn sut_entry_api(e: &Entry, fab: Option<NonZeroU8>) -> Result<AclEntry, String> 
     Ok(out)
 }
 
-fn sut_entry_tlv(e: &Entry, fab: Option<NonZeroU8>) -> Result<AclEntry, String> {
+pub fn sut_entry_tlv(e: &Entry, fab: Option<NonZeroU8>) -> Result<AclEntry, String> {
     let bytes = entry_tlv(e);
     let mut out = AclEntry::from_tlv(&TLVElement::new(&bytes))
         .map_err(|_| "AclEntry::from_tlv failed on a hand-encoded entry".to_string())?;
@@ -526,7 +526,7 @@ fn sut_entry_tlv(e: &Entry, fab: Option<NonZeroU8>) -> Result<AclEntry, String> 
 
 /// Entries with an empty (non-null) list can only be built by decoding TLV (as when a fabric is
 /// loaded from storage); everything else goes through the builder API.
-fn sut_entry(e: &Entry, fab: Option<NonZeroU8>) -> Result<AclEntry, String> {
+pub fn sut_entry(e: &Entry, fab: Option<NonZeroU8>) -> Result<AclEntry, String> {
     if has_empty_list(e) {
         let out = sut_entry_tlv(e, fab)?;
         // Make sure the decoded entry really has the list shape we wanted.
@@ -549,7 +549,7 @@ fn sut_entry(e: &Entry, fab: Option<NonZeroU8>) -> Result<AclEntry, String> {
 
 /// Install `world` into the thread's `Matter` instance. Returns, per fabric, the entries that
 /// are really in the table (PASE-mode entries are documented as refused by `acl_add`).
-fn install(m: &Matter<'_>, world: &World) -> Result<Vec<Vec<Entry>>, String> {
+pub fn install(m: &Matter<'_>, world: &World) -> Result<Vec<Vec<Entry>>, String> {
     m.with_state(|state| {
         state.fabrics.reset();
         let n = world.fabrics.len();
@@ -613,7 +613,7 @@ fn install(m: &Matter<'_>, world: &World) -> Result<Vec<Vec<Entry>>, String> {
     })
 }
 
-fn sut_subjects(acc: &Acc) -> Result<AccessorSubjects, String> {
+pub fn sut_subjects(acc: &Acc) -> Result<AccessorSubjects, String> {
     let mut s = AccessorSubjects::new(acc.id);
     for (id, ver) in &acc.cats {
         s.add_catid(((*id as u32) << 16) | *ver as u32)
@@ -622,14 +622,14 @@ fn sut_subjects(acc: &Acc) -> Result<AccessorSubjects, String> {
     Ok(s)
 }
 
-fn sut_device_types(req: &Req) -> Vec<DeviceType> {
+pub fn sut_device_types(req: &Req) -> Vec<DeviceType> {
     req.device_types
         .iter()
         .map(|d| DeviceType { dtype: *d, drev: 1 })
         .collect()
 }
 
-fn sut_op(req: &Req) -> Access {
+pub fn sut_op(req: &Req) -> Access {
     if req.write {
         Access::WRITE
     } else {
@@ -638,7 +638,7 @@ fn sut_op(req: &Req) -> Access {
 }
 
 /// `AccessReq::allow()` on the currently installed world.
-fn sut_allow(m: &'static Matter<'static>, acc: &Acc, req: &Req, aux: bool) -> Result<bool, String> {
+pub fn sut_allow(m: &'static Matter<'static>, acc: &Acc, req: &Req, aux: bool) -> Result<bool, String> {
     let accessor = Accessor::new(acc.fab, aux, sut_subjects(acc)?, acc.mode.map(sut_mode), m);
     let dts = sut_device_types(req);
     let path = GenericPath::new(Some(req.endpoint), Some(req.cluster), Some(req.leaf));
@@ -647,7 +647,7 @@ fn sut_allow(m: &'static Matter<'static>, acc: &Acc, req: &Req, aux: bool) -> Re
     Ok(r.allow())
 }
 
-fn sut_world_allow(world: &World, acc: &Acc, req: &Req, aux: bool) -> Result<bool, String> {
+pub fn sut_world_allow(world: &World, acc: &Acc, req: &Req, aux: bool) -> Result<bool, String> {
     let m = matter();
     install(m, world)?;
     sut_allow(m, acc, req, aux)
@@ -657,7 +657,7 @@ fn sut_world_allow(world: &World, acc: &Acc, req: &Req, aux: bool) -> Result<boo
 // Checks
 // ---------------------------------------------------------------------------------------------
 
-fn describe(acc: &Acc, req: &Req) -> String {
+pub fn describe(acc: &Acc, req: &Req) -> String {
     format!(
         "accessor {acc:?}; request ep={} cl={:#x} dts={:?} op={} decl={:?}",
         req.endpoint,
@@ -675,7 +675,7 @@ fn describe(acc: &Acc, req: &Req) -> String {
 /// disagree (i.e. the only matching entries that could grant the required View privilege are
 /// ProxyView entries) either outcome is accepted and the case is labelled
 /// `proxyview-unspecified`. Returns (expectation, proxyview_unspecified).
-fn combine(exp_proxy_grants_view: Expect, exp_proxy_grants_nothing: Expect) -> (Expect, bool) {
+pub fn combine(exp_proxy_grants_view: Expect, exp_proxy_grants_nothing: Expect) -> (Expect, bool) {
     if exp_proxy_grants_view == exp_proxy_grants_nothing {
         (exp_proxy_grants_view, false)
     } else {
@@ -683,7 +683,7 @@ fn combine(exp_proxy_grants_view: Expect, exp_proxy_grants_nothing: Expect) -> (
     }
 }
 
-fn mismatch(prefix: &str, got: bool, exp: Expect, detail: impl FnOnce() -> String) -> Option<Case> {
+pub fn mismatch(prefix: &str, got: bool, exp: Expect, detail: impl FnOnce() -> String) -> Option<Case> {
     let ok = match exp {
         Expect::Either => true,
         Expect::Allow => got,
@@ -700,7 +700,7 @@ fn mismatch(prefix: &str, got: bool, exp: Expect, detail: impl FnOnce() -> Strin
     Some(Case::fail(sig, detail()))
 }
 
-fn check_decision(c: &DecisionCase) -> Case {
+pub fn check_decision(c: &DecisionCase) -> Case {
     let m = matter();
     let installed = match install(m, &c.world) {
         Ok(i) => i,
@@ -821,7 +821,7 @@ fn check_decision(c: &DecisionCase) -> Case {
     Case::pass(nontrivial).labels(labels)
 }
 
-fn check_entry(c: &EntryCase) -> Case {
+pub fn check_entry(c: &EntryCase) -> Case {
     let m = matter();
     let entry = match sut_entry(&c.entry, NonZeroU8::new(c.entry_fab)) {
         Ok(e) => e,
@@ -882,7 +882,7 @@ fn check_entry(c: &EntryCase) -> Case {
     case
 }
 
-fn check_relational(c: &RelCase) -> Case {
+pub fn check_relational(c: &RelCase) -> Case {
     let run = |w: &World| sut_world_allow(w, &c.acc, &c.req, c.aux);
     let base = match run(&c.world) {
         Ok(b) => b,
@@ -1032,7 +1032,7 @@ fn check_relational(c: &RelCase) -> Case {
     Case::pass(base).labels(labels)
 }
 
-fn check_group_endpoint(c: &GroupCase) -> Case {
+pub fn check_group_endpoint(c: &GroupCase) -> Case {
     let m = matter();
     if let Err(e) = install(m, &c.world) {
         return Case::inconclusive(e);
@@ -1085,7 +1085,7 @@ fn check_group_endpoint(c: &GroupCase) -> Case {
     Case::pass(nt).label(label)
 }
 
-fn check_table(t: &TableItem) -> Case {
+pub fn check_table(t: &TableItem) -> Case {
     let decl = Access::from_bits_truncate(t.access);
     let nd = need(decl, t.write);
     let (exp, pv_unspecified) = combine(
@@ -1160,30 +1160,30 @@ fn check_table(t: &TableItem) -> Case {
 // ---------------------------------------------------------------------------------------------
 
 /// ids usable as node id and as group id
-const SMALL_IDS: [u64; 3] = [1, 2, 0x12AB];
+pub const SMALL_IDS: [u64; 3] = [1, 2, 0x12AB];
 /// ids usable as node id only
-const NODE_IDS: [u64; 3] = [112233, 0xFFFF_FFEF_FFFF_FFFF, 0x0001_0000];
-const CAT_IDS: [u16; 2] = [0xABCD, 0x0001];
-const ENDPOINTS: [u16; 3] = [0, 1, 2];
-const CLUSTERS: [u32; 3] = [0x0006, 0x001F, 0x0028];
-const DEV_TYPES: [u16; 3] = [0x0100, 0x0016, 0x000A];
-const GROUP_IDS: [u16; 4] = [1, 2, 0x12AB, 0xFFFF];
+pub const NODE_IDS: [u64; 3] = [112233, 0xFFFF_FFEF_FFFF_FFFF, 0x0001_0000];
+pub const CAT_IDS: [u16; 2] = [0xABCD, 0x0001];
+pub const ENDPOINTS: [u16; 3] = [0, 1, 2];
+pub const CLUSTERS: [u32; 3] = [0x0006, 0x001F, 0x0028];
+pub const DEV_TYPES: [u16; 3] = [0x0100, 0x0016, 0x000A];
+pub const GROUP_IDS: [u16; 4] = [1, 2, 0x12AB, 0xFFFF];
 
-fn any_id() -> impl Strategy<Value = u64> {
+pub fn any_id() -> impl Strategy<Value = u64> {
     prop_oneof![
         3 => prop::sample::select(SMALL_IDS.to_vec()),
         2 => prop::sample::select(NODE_IDS.to_vec()),
     ]
 }
 
-fn small_id() -> impl Strategy<Value = u64> {
+pub fn small_id() -> impl Strategy<Value = u64> {
     prop_oneof![
         6 => prop::sample::select(SMALL_IDS.to_vec()),
         1 => Just(0xFFFFu64),
     ]
 }
 
-fn cat_version() -> impl Strategy<Value = u16> {
+pub fn cat_version() -> impl Strategy<Value = u16> {
     prop_oneof![
         8 => 1u16..=3,
         1 => Just(0u16),
@@ -1192,19 +1192,19 @@ fn cat_version() -> impl Strategy<Value = u16> {
     ]
 }
 
-fn cat() -> impl Strategy<Value = (u16, u16)> {
+pub fn cat() -> impl Strategy<Value = (u16, u16)> {
     (prop::sample::select(CAT_IDS.to_vec()), cat_version())
 }
 
-fn privilege() -> impl Strategy<Value = Priv> {
+pub fn privilege() -> impl Strategy<Value = Priv> {
     prop::sample::select(ALL_PRIVS.to_vec())
 }
 
-fn mode() -> impl Strategy<Value = Mode> {
+pub fn mode() -> impl Strategy<Value = Mode> {
     prop_oneof![12 => Just(Mode::Case), 6 => Just(Mode::Group), 1 => Just(Mode::Pase)]
 }
 
-fn list<T: std::fmt::Debug + Clone + 'static>(
+pub fn list<T: std::fmt::Debug + Clone + 'static>(
     item: impl Strategy<Value = T> + 'static,
     max: usize,
 ) -> impl Strategy<Value = List<T>> {
@@ -1215,7 +1215,7 @@ fn list<T: std::fmt::Debug + Clone + 'static>(
     ]
 }
 
-fn target() -> impl Strategy<Value = Tgt> {
+pub fn target() -> impl Strategy<Value = Tgt> {
     (
         // which fields are present: at least one; endpoint+device-type together is rare
         prop::sample::select(vec![
@@ -1236,7 +1236,7 @@ fn target() -> impl Strategy<Value = Tgt> {
 }
 
 /// `strict`: only entries the Access Control cluster accepts (no Group+Administer).
-fn entry(strict: bool) -> impl Strategy<Value = Entry> {
+pub fn entry(strict: bool) -> impl Strategy<Value = Entry> {
     (mode(), privilege()).prop_flat_map(move |(m, p)| {
         let p = if strict && m == Mode::Group && p == Priv::Administer {
             Priv::Manage
@@ -1260,7 +1260,7 @@ fn entry(strict: bool) -> impl Strategy<Value = Entry> {
     })
 }
 
-fn groups() -> impl Strategy<Value = Vec<GroupSpec>> {
+pub fn groups() -> impl Strategy<Value = Vec<GroupSpec>> {
     prop::collection::vec(
         prop::option::weighted(
             0.5,
@@ -1289,7 +1289,7 @@ fn groups() -> impl Strategy<Value = Vec<GroupSpec>> {
     })
 }
 
-fn fabric(strict: bool, with_groups: bool) -> impl Strategy<Value = FabricSpec> {
+pub fn fabric(strict: bool, with_groups: bool) -> impl Strategy<Value = FabricSpec> {
     (
         prop::bool::weighted(0.85),
         prop::collection::vec(entry(strict), 0..=4),
@@ -1302,11 +1302,11 @@ fn fabric(strict: bool, with_groups: bool) -> impl Strategy<Value = FabricSpec> 
         })
 }
 
-fn world(strict: bool, with_groups: bool) -> impl Strategy<Value = World> {
+pub fn world(strict: bool, with_groups: bool) -> impl Strategy<Value = World> {
     prop::collection::vec(fabric(strict, with_groups), 3).prop_map(|fabrics| World { fabrics })
 }
 
-fn accessor() -> impl Strategy<Value = Acc> {
+pub fn accessor() -> impl Strategy<Value = Acc> {
     let m = prop_oneof![
         12 => Just(Some(Mode::Case)),
         6 => Just(Some(Mode::Group)),
@@ -1335,7 +1335,7 @@ fn accessor() -> impl Strategy<Value = Acc> {
 }
 
 /// Declarations produced by the code generator and the `Access` constants.
-fn canonical_decls() -> Vec<u16> {
+pub fn canonical_decls() -> Vec<u16> {
     let v = Access::NEED_VIEW;
     let o = Access::NEED_OPERATE | Access::NEED_MANAGE | Access::NEED_ADMIN;
     let mm = Access::NEED_MANAGE | Access::NEED_ADMIN;
@@ -1368,7 +1368,7 @@ fn canonical_decls() -> Vec<u16> {
     out.into_iter().map(|a| a.bits()).collect()
 }
 
-fn request() -> impl Strategy<Value = Req> {
+pub fn request() -> impl Strategy<Value = Req> {
     (
         prop::sample::select(ENDPOINTS.to_vec()),
         prop::sample::select(CLUSTERS.to_vec()),
@@ -1394,19 +1394,19 @@ fn request() -> impl Strategy<Value = Req> {
 /// Random knobs used to *construct* accessors/requests that are close to an entry (instead of
 /// filtering for them): each dimension is aligned with the focus entry with some probability.
 #[derive(Debug, Clone, Copy)]
-struct Knobs {
-    fab: u8,
-    fab_sel: u16,
-    entry_sel: u16,
-    mode: u8,
-    subj: u8,
-    subj_sel: u16,
-    ver_delta: i8,
-    tgt: u8,
-    tgt_sel: u16,
+pub struct Knobs {
+    pub fab: u8,
+    pub fab_sel: u16,
+    pub entry_sel: u16,
+    pub mode: u8,
+    pub subj: u8,
+    pub subj_sel: u16,
+    pub ver_delta: i8,
+    pub tgt: u8,
+    pub tgt_sel: u16,
 }
 
-fn knobs() -> impl Strategy<Value = Knobs> {
+pub fn knobs() -> impl Strategy<Value = Knobs> {
     (
         (any::<u8>(), any::<u16>(), any::<u16>(), any::<u8>()),
         (any::<u8>(), any::<u16>(), -1i8..=1, any::<u8>(), any::<u16>()),
@@ -1427,7 +1427,7 @@ fn knobs() -> impl Strategy<Value = Knobs> {
 }
 
 /// Move the accessor / request towards matching `e` (never changes `e`).
-fn align(acc: &mut Acc, req: &mut Req, e: &Entry, k: &Knobs) {
+pub fn align(acc: &mut Acc, req: &mut Req, e: &Entry, k: &Knobs) {
     if k.mode < 215 {
         acc.mode = Some(e.mode);
         if e.mode != Mode::Case {
@@ -1484,7 +1484,7 @@ fn align(acc: &mut Acc, req: &mut Req, e: &Entry, k: &Knobs) {
 /// Pick a focus entry in the world and align accessor and request with it. Mostly the accessor
 /// is put on the focus entry's fabric; sometimes it keeps its own (possibly foreign, 0 or
 /// non-existent) fabric index so that only a foreign entry matches.
-fn align_world(world: &World, acc: &mut Acc, req: &mut Req, k: &Knobs) {
+pub fn align_world(world: &World, acc: &mut Acc, req: &mut Req, k: &Knobs) {
     let with_entries: Vec<usize> = world
         .fabrics
         .iter()
@@ -1504,14 +1504,14 @@ fn align_world(world: &World, acc: &mut Acc, req: &mut Req, k: &Knobs) {
     align(acc, req, e, k);
 }
 
-fn decision_case() -> impl Strategy<Value = DecisionCase> {
+pub fn decision_case() -> impl Strategy<Value = DecisionCase> {
     (world(true, false), accessor(), request(), knobs()).prop_map(|(world, mut acc, mut req, k)| {
         align_world(&world, &mut acc, &mut req, &k);
         DecisionCase { world, acc, req }
     })
 }
 
-fn entry_case() -> impl Strategy<Value = EntryCase> {
+pub fn entry_case() -> impl Strategy<Value = EntryCase> {
     (
         entry(false),
         prop_oneof![1 => Just(0u8), 4 => Just(1u8), 3 => Just(2u8), 1 => Just(3u8), 1 => Just(255u8)],
@@ -1539,7 +1539,7 @@ fn entry_case() -> impl Strategy<Value = EntryCase> {
         })
 }
 
-fn rel_case() -> impl Strategy<Value = RelCase> {
+pub fn rel_case() -> impl Strategy<Value = RelCase> {
     (world(false, true), accessor(), request(), any::<bool>(), knobs()).prop_map(
         |(world, mut acc, mut req, aux, k)| {
             align_world(&world, &mut acc, &mut req, &k);
@@ -1548,7 +1548,7 @@ fn rel_case() -> impl Strategy<Value = RelCase> {
     )
 }
 
-fn group_case() -> impl Strategy<Value = GroupCase> {
+pub fn group_case() -> impl Strategy<Value = GroupCase> {
     (
         world(false, true),
         accessor(),
@@ -1577,7 +1577,7 @@ fn group_case() -> impl Strategy<Value = GroupCase> {
 // Harness self-test: the hand-written TLV encoder agrees with the builder API
 // ---------------------------------------------------------------------------------------------
 
-fn selftest() -> Result<(), String> {
+pub fn selftest() -> Result<(), String> {
     let tgts = vec![
         Tgt { endpoint: Some(1), cluster: None, device_type: None },
         Tgt { endpoint: None, cluster: Some(0x1F), device_type: Some(0x0001_0100) },
@@ -1611,7 +1611,7 @@ fn selftest() -> Result<(), String> {
     Ok(())
 }
 
-fn main() {
+pub fn main() {
     let mut run = Run::new(
         "C05",
         "exploration",
